@@ -142,48 +142,51 @@ theorem close_still_reported_declared (c : Conn) (code : Nat) (text : Bytes) (o 
   · exact Or.inr (Or.inr (Or.inr h))
   · exact absurd hn (hdecl bytes ho)
 
-/-- D19. After the server's close no poll event ends the loop with a *read* error any more: what
-    the socket does behind Connection.Close (end of stream, reset, malformed bytes) is swallowed,
-    so the only error an event can still produce is a failing write of what was queued (CloseOk);
-    the server's code and text stay what `Connection::close` reports. -/
+/- Statement before the tolerance was narrowed to socket errors:
+
 theorem server_close_not_replaced_by_read_error (c : Conn) (t : Token) (hl : c.legacy = false)
     (hs : c.st.isServerClosing = true) (hsl : c.slots = []) :
-    (handleEvent c t).2.2 = none ∨ (handleEvent c t).2.2 = some .ioErrorWritingSocket := by
+    (handleEvent c t).2.2 = none ∨ (handleEvent c t).2.2 = some .ioErrorWritingSocket
+
+false since only the socket's own end / read error is forgiven after the server's close: an error
+raised while bytes behind Connection.Close are processed is reported - counterexample (`cex` above:
+`init`, then the server's Connection.Close; eight zero bytes are a whole frame no declaration knows):
+  c := { cex with reads := [.chunk [0, 0, 0, 0, 0, 0, 0, 0]] },  t := .stream true false:
+  (handleEvent c t).2.2 = some .malformedFrame   (checked by the `example` below). -/
+
+/-- D19. After the server's close the socket's end or a read error never becomes the result of a
+    poll event: what the socket itself does behind Connection.Close (end of stream, reset) is
+    swallowed, the loop goes on to write CloseOk, and the server's code and text stay what
+    `Connection::close` reports.  (Bytes behind the close that do not parse are forgiven too; what is
+    NOT forgiven is an error raised while the Close itself is processed; a failing write of CloseOk
+    is `ioErrorWritingSocket`.) -/
+theorem server_close_not_replaced_by_read_error (c : Conn) (t : Token) (hl : c.legacy = false)
+    (hs : c.st.isServerClosing = true) (hsl : c.slots = []) :
+    (handleEvent c t).2.2 ≠ some .unexpectedSocketClose ∧
+    (handleEvent c t).2.2 ≠ some .ioErrorReadingSocket ∧
+    (handleEvent c t).2.2 ≠ some .malformedFrame := by
   have hst : c.st ≠ .steady := by
     intro h; rw [h] at hs; exact absurd hs (by decide)
   cases t with
-  | heartbeat => rw [handleEvent_heartbeat]; exact Or.inl rfl
-  | setBlocked => rw [handleEvent_setBlocked_nonsteady hl hst]; exact Or.inl rfl
-  | alloc => rw [handleEvent_alloc_nonsteady hl hst]; exact Or.inl rfl
+  | heartbeat => rw [handleEvent_heartbeat]; exact ⟨by simp, by simp, by simp⟩
+  | setBlocked => rw [handleEvent_setBlocked_nonsteady hl hst]; exact ⟨by simp, by simp, by simp⟩
+  | alloc => rw [handleEvent_alloc_nonsteady hl hst]; exact ⟨by simp, by simp, by simp⟩
   | chan n =>
     by_cases hn : n = 0
-    · subst hn; rw [handleEvent_chan0_nonsteady hl hst]; exact Or.inl rfl
-    · rw [handleEvent_chan_noslot hn (by rw [hsl]; rfl)]; exact Or.inl rfl
-  | stream r w =>
-    have hw := still_writeToStream c
-    have hwe := (writeToStream_spec c).2.2.2.2.2.2.2.2.2
-    have hl' : (writeToStream c).1.legacy = false := hw.legacy.trans hl
-    have hst' : (writeToStream c).1.st ≠ .steady := by rw [hw.st]; exact hst
-    have hr := (readFromStream_nonsteady hl hst).1
-    have hr' := (readFromStream_nonsteady hl' hst').1
-    have e1 : (readFromStream c).1.legacy = false := hr.legacy.trans hl
-    have e2 : (readFromStream c).1.st.isServerClosing = true := by rw [hr.st]; exact hs
-    have e1' : (readFromStream (writeToStream c).1).1.legacy = false := hr'.legacy.trans hl'
-    have e2' : (readFromStream (writeToStream c).1).1.st.isServerClosing = true := by
-      rw [hr'.st, hw.st]; exact hs
-    unfold handleEvent
-    cases w <;> cases r <;> simp only [Bool.false_eq_true, ↓reduceIte]
-    · exact Or.inl trivial
-    · simp only [e1, e2, Bool.not_false, Bool.or_true, Bool.and_self, ↓reduceIte]
-      exact Or.inl trivial
-    · rcases hwe with h | h <;> rw [h]
-      · exact Or.inl rfl
-      · exact Or.inr rfl
-    · rcases hwe with h | h <;> rw [h]
-      · dsimp only
-        simp only [e1', e2', Bool.not_false, Bool.or_true, Bool.and_self, ↓reduceIte]
-        exact Or.inl trivial
-      · exact Or.inr rfl
+    · subst hn; rw [handleEvent_chan0_nonsteady hl hst]; exact ⟨by simp, by simp, by simp⟩
+    · rw [handleEvent_chan_noslot hn (by rw [hsl]; rfl)]; exact ⟨by simp, by simp, by simp⟩
+  | stream r w => exact handleEvent_stream_serverClosing hl hs r w
+
+/-- Bytes behind the server's close that do not parse are forgiven like the socket's end (second
+    version of the fix). -/
+example :
+    let c : Conn := { cex with reads := [.chunk [0, 0, 0, 0, 0, 0, 0, 0]] }
+    c.legacy = false ∧ c.st.isServerClosing = true ∧ c.slots = [] ∧
+    (handleEvent c (.stream true false)).2.2 = none := by decide
+
+/-- … while the socket's end and a read error behind the close are swallowed. -/
+example : (handleEvent { cex with reads := [.eof] } (.stream true false)).2.2 = none ∧
+    (handleEvent { cex with reads := [.ioErr] } (.stream true false)).2.2 = none := by decide
 
 /- Statement before fix D17:
 
